@@ -121,8 +121,8 @@
        which is the tolerated leak of C04).
    ========================================================================== *)
 Require Import Model.Base Model.Slots Model.MapOps Model.EntryOps Model.SetOps Model.Fmt Model.Exec.
-Require Import Proofs.Hoare Proofs.Inv Proofs.Safety Proofs.Safety2 Proofs.Spec Proofs.IterSpec
-               Proofs.Owned Proofs.ExecSafe Proofs.Legacy.
+Require Import Proofs.Hoare Proofs.Inv Proofs.Safety Proofs.Safety2 Proofs.Safety3 Proofs.Spec Proofs.IterSpec
+               Proofs.Owned Proofs.Owned2 Proofs.ExecSafe Proofs.Legacy.
 From Coq Require Import Permutation.
 
 (* -------------------------------------------------------------------------- *)
@@ -334,6 +334,288 @@ Proof. exact (@into_run_all_rev). Qed.
 Print Assumptions C02_into_run_all_rev.
 
 (* -------------------------------------------------------------------------- *)
+(* ownership conservation for the entry API, into_keys / into_values, every Set
+   method, clone and the Set subtraction (Proofs/Owned2.v), arbitrary environment *)
+
+(* Map::entry: the key is handed in; a Vacant entry carries it out again *)
+Theorem C02_conserves_entry_of :
+  forall (K V Q T : Type) (E : env K V Q T) (k : K),
+  conserves E (entry_of E k) (idK E k) (ids_entry E).
+Proof. exact (@conserves_entry_of). Qed.
+Print Assumptions C02_conserves_entry_of.
+
+(* OccupiedEntry::insert: the new value goes in, the old value comes out *)
+Theorem C02_conserves_occ_insert :
+  forall (K V Q T : Type) (E : env K V Q T) (i : nat) (v : V) (w : world K V T),
+  WF (self w) ->
+  i < len (self w) ->
+  wp (occ_insert i v)
+    (fun r : V => cpostN E w (idV E v) (idV E r))
+    (cpostP E w (idV E v))
+    w.
+Proof. exact (@conserves_occ_insert). Qed.
+Print Assumptions C02_conserves_occ_insert.
+
+Theorem C02_conserves_occ_remove_entry :
+  forall (K V Q T : Type) (E : env K V Q T) (debug : bool) (i : nat) (w : world K V T),
+  WF (self w) ->
+  i < len (self w) ->
+  wp (occ_remove_entry debug i)
+    (fun p : K * V => cpostN E w [] (ids_pair E p))
+    (cpostP E w [])
+    w.
+Proof. exact (@conserves_occ_remove_entry). Qed.
+Print Assumptions C02_conserves_occ_remove_entry.
+
+Theorem C02_conserves_occ_remove :
+  forall (K V Q T : Type) (E : env K V Q T) (debug : bool) (i : nat) (w : world K V T),
+  WF (self w) ->
+  i < len (self w) ->
+  wp (occ_remove E debug i)
+    (fun v : V => cpostN E w [] (idV E v))
+    (cpostP E w [])
+    w.
+Proof. exact (@conserves_occ_remove). Qed.
+Print Assumptions C02_conserves_occ_remove.
+
+Theorem C02_conserves_vac_insert :
+  forall (K V Q T : Type) (E : env K V Q T) (debug : bool) (k : K) (v : V),
+  conserves E (vac_insert E debug k v) (ids_pair E (k, v)) (fun _ : nat => []).
+Proof. exact (@conserves_vac_insert). Qed.
+Print Assumptions C02_conserves_vac_insert.
+
+(* Entry::or_insert: an Occupied entry destroys the unused default value *)
+Theorem C02_conserves_or_insert :
+  forall (K V Q T : Type) (E : env K V Q T) (debug : bool) (e : @entry K) (v : V) (w : world K V T),
+  WF (self w) ->
+  entry_ok e (self w) ->
+  wp (or_insert E debug e v)
+    (fun (i : nat) (w' : world K V T) =>
+       cpostN E w (ids_entry E e ++ idV E v) [] w' /\ i < len (self w'))
+    (cpostP E w (ids_entry E e ++ idV E v))
+    w.
+Proof. exact (@conserves_or_insert). Qed.
+Print Assumptions C02_conserves_or_insert.
+
+(* Entry::or_insert_with: the closure's value (made_entry) enters only when the
+   entry is Vacant and the closure returns *)
+Theorem C02_conserves_or_insert_with :
+  forall (K V Q T : Type) (E : env K V Q T) (debug : bool) (e : @entry K)
+         (f : T -> option V * T) (w : world K V T),
+  WF (self w) ->
+  entry_ok e (self w) ->
+  wp (or_insert_with E debug e f)
+    (fun (i : nat) (w' : world K V T) =>
+       cpostN E w (ids_entry E e ++ made_entry E e f w) [] w' /\ i < len (self w'))
+    (cpostP E w (ids_entry E e ++ made_entry E e f w))
+    w.
+Proof. exact (@conserves_or_insert_with). Qed.
+Print Assumptions C02_conserves_or_insert_with.
+
+(* Entry::and_modify: the closure may rewrite the value in place but not swap
+   its identity *)
+Theorem C02_conserves_and_modify :
+  forall (K V Q T : Type) (E : env K V Q T) (e : @entry K) (f : @modf_t V T) (w : world K V T),
+  (forall (s : T) (v : V), idV E (snd (fst (f s v))) = idV E v) ->
+  WF (self w) ->
+  entry_ok e (self w) ->
+  wp (and_modify e f)
+    (fun (e' : @entry K) (w' : world K V T) =>
+       cpostN E w (ids_entry E e) (ids_entry E e') w' /\ e' = e /\ entry_ok e' (self w'))
+    (cpostP E w (ids_entry E e))
+    w.
+Proof. exact (@conserves_and_modify). Qed.
+Print Assumptions C02_conserves_and_modify.
+
+(* the whole chain map.entry(k).or_insert(v) *)
+Theorem C02_conserves_entry_or_insert :
+  forall (K V Q T : Type) (E : env K V Q T) (debug : bool) (k : K) (v : V),
+  conserves E (e <- entry_of E k ;; or_insert E debug e v) (ids_pair E (k, v)) (fun _ : nat => []).
+Proof. exact (@conserves_entry_or_insert). Qed.
+Print Assumptions C02_conserves_entry_or_insert.
+
+(* IntoKeys::next / IntoValues::next: the other half of the pair is destroyed *)
+Theorem C02_conserves_into_keys_next :
+  forall (K V Q T : Type) (E : env K V Q T),
+  conserves E (into_keys_next E) []
+            (fun r : option K => match r with Some k => idK E k | None => [] end).
+Proof. exact (@conserves_into_keys_next). Qed.
+Print Assumptions C02_conserves_into_keys_next.
+
+Theorem C02_conserves_into_values_next :
+  forall (K V Q T : Type) (E : env K V Q T),
+  conserves E (into_values_next E) []
+            (fun r : option V => match r with Some v => idV E v | None => [] end).
+Proof. exact (@conserves_into_values_next). Qed.
+Print Assumptions C02_conserves_into_values_next.
+
+(* Set<T,N> = Map<T,(),N>: one conservation lemma per Set method *)
+Theorem C02_conserves_s_insert :
+  forall (K Q T : Type) (E : env K unit Q T) (debug : bool) (k : K),
+  conserves E (s_insert E debug k) (ids_pair E (k, tt))
+            (fun r : bool => if r then [] else idV E tt).
+Proof. exact (@conserves_s_insert). Qed.
+Print Assumptions C02_conserves_s_insert.
+
+Theorem C02_conserves_s_replace :
+  forall (K Q T : Type) (E : env K unit Q T) (debug : bool) (k : K),
+  conserves E (s_replace E debug k) (ids_pair E (k, tt))
+            (fun r : option K => match r with Some k' => ids_pair E (k', tt) | None => [] end).
+Proof. exact (@conserves_s_replace). Qed.
+Print Assumptions C02_conserves_s_replace.
+
+Theorem C02_conserves_s_remove :
+  forall (K Q T : Type) (E : env K unit Q T) (debug : bool) (q : Q),
+  conserves E (s_remove E debug q) [] (fun r : bool => if r then idV E tt else []).
+Proof. exact (@conserves_s_remove). Qed.
+Print Assumptions C02_conserves_s_remove.
+
+Theorem C02_conserves_s_take :
+  forall (K Q T : Type) (E : env K unit Q T) (debug : bool) (q : Q),
+  conserves E (s_take E debug q) []
+            (fun r : option K => match r with Some k' => ids_pair E (k', tt) | None => [] end).
+Proof. exact (@conserves_s_take). Qed.
+Print Assumptions C02_conserves_s_take.
+
+Theorem C02_conserves_s_clear :
+  forall (K Q T : Type) (E : env K unit Q T),
+  conserves E (s_clear E) [] (fun _ : unit => []).
+Proof. exact (@conserves_s_clear). Qed.
+Print Assumptions C02_conserves_s_clear.
+
+Theorem C02_conserves_s_retain :
+  forall (K Q T : Type) (E : env K unit Q T) (debug : bool) (f : T -> K -> option bool * T),
+  conserves E (s_retain E debug f) [] (fun _ : unit => []).
+Proof. exact (@conserves_s_retain). Qed.
+Print Assumptions C02_conserves_s_retain.
+
+(* from here on: the unit value () carries no ledger identity *)
+Theorem C02_conserves_s_extend :
+  forall (K Q T : Type) (E : env K unit Q T) (debug : bool),
+  idV E tt = [] ->
+  forall (nx : T -> ans * T) (items : list K),
+  conserves E (s_extend E debug nx items) (flat_map (fun k : K => ids_pair E (k, tt)) items)
+            (fun _ : unit => []).
+Proof. exact (@conserves_s_extend). Qed.
+Print Assumptions C02_conserves_s_extend.
+
+Theorem C02_s_from_iter_acct :
+  forall (K Q T : Type) (E : env K unit Q T) (debug : bool),
+  idV E tt = [] ->
+  forall (nx : T -> ans * T) (items : list K) (w : world K unit T),
+  WF (self w) ->
+  wp (s_from_iter E debug nx items)
+    (fun (_ : unit) (w' : world K unit T) =>
+       WF (self w') /\
+       cap (self w') = cap (self w) /\
+       exists lost : list N,
+         acct E w w' (flat_map (fun k : K => ids_pair E (k, tt)) items) [] lost /\
+         (Tidy (self w) -> lost = [] /\ Tidy (self w')))
+    (fun w' : world K unit T =>
+       exists lost : list N,
+         acct E w w' (flat_map (fun k : K => ids_pair E (k, tt)) items) [] lost)
+    w.
+Proof. exact (@s_from_iter_acct). Qed.
+Print Assumptions C02_s_from_iter_acct.
+
+(* "exactly one place" for Set::insert and Set::take, on return and on panic *)
+Theorem C02_s_insert_NoDup :
+  forall (K Q T : Type) (E : env K unit Q T) (debug : bool) (k : K) (w : world K unit T),
+  WF (self w) ->
+  NoDup (owned E (self w) ++ ids_pair E (k, tt) ++ dropped (log w)) ->
+  wp (s_insert E debug k)
+    (fun (r : bool) (w' : world K unit T) =>
+       NoDup (owned E (self w') ++ (if r then [] else idV E tt) ++ dropped (log w')))
+    (fun w' : world K unit T => NoDup (owned E (self w') ++ dropped (log w')))
+    w.
+Proof. exact (@s_insert_NoDup). Qed.
+Print Assumptions C02_s_insert_NoDup.
+
+Theorem C02_s_take_NoDup :
+  forall (K Q T : Type) (E : env K unit Q T) (debug : bool) (q : Q) (w : world K unit T),
+  WF (self w) ->
+  NoDup (owned E (self w) ++ dropped (log w)) ->
+  wp (s_take E debug q)
+    (fun (r : option K) (w' : world K unit T) =>
+       NoDup (owned E (self w') ++
+              match r with Some k' => ids_pair E (k', tt) | None => [] end ++
+              dropped (log w')))
+    (fun w' : world K unit T => NoDup (owned E (self w') ++ dropped (log w')))
+    w.
+Proof. exact (@s_take_NoDup). Qed.
+Print Assumptions C02_s_take_NoDup.
+
+(* Clone into an empty tidy container of the source's capacity: the clone owns
+   exactly the objects the Clone callbacks returned (clone_made), nothing is
+   destroyed on normal return; on a panic of a Clone callback the objects made so
+   far are either still in the partial clone or destroyed (d), none twice *)
+Theorem C02_clone_acct :
+  forall (K V Q T : Type) (E : env K V Q T) (src : map K V) (w : world K V T),
+  WF src ->
+  WF (self w) ->
+  len (self w) = 0 ->
+  cap (self w) = cap src ->
+  Tidy (self w) ->
+  let made := flat_map (ids_pair E) (clone_made E src (len src) 0 (cb w)) in
+  wp (clone_from_src E src)
+    (fun (_ : unit) (w' : world K V T) =>
+       WF (self w') /\
+       Tidy (self w') /\
+       len (self w') = len src /\
+       length (clone_made E src (len src) 0 (cb w)) = len src /\
+       dropped (log w') = dropped (log w) /\
+       Permutation (owned E (self w')) made)
+    (fun w' : world K V T =>
+       exists d : list N,
+         dropped (log w') = dropped (log w) ++ d /\
+         Permutation (owned E (self w') ++ d) made)
+    w.
+Proof. exact (@clone_acct). Qed.
+Print Assumptions C02_clone_acct.
+
+Theorem C02_clone_NoDup :
+  forall (K V Q T : Type) (E : env K V Q T) (src : map K V) (w : world K V T),
+  WF src ->
+  WF (self w) ->
+  len (self w) = 0 ->
+  cap (self w) = cap src ->
+  Tidy (self w) ->
+  NoDup (flat_map (ids_pair E) (clone_made E src (len src) 0 (cb w)) ++ dropped (log w)) ->
+  wp (clone_from_src E src)
+    (fun (_ : unit) (w' : world K V T) => NoDup (owned E (self w') ++ dropped (log w')))
+    (fun w' : world K V T => NoDup (owned E (self w') ++ dropped (log w')))
+    w.
+Proof. exact (@clone_NoDup). Qed.
+Print Assumptions C02_clone_NoDup.
+
+(* Set - Set (Sub for &Set): the result register receives clones (cloned_from)
+   of elements of a, each accounted for *)
+Theorem C02_set_sub_acct :
+  forall (K Q T : Type) (E : env K unit Q T) (debug : bool),
+  idV E tt = [] ->
+  forall (a b : map K unit) (w : world K unit T),
+  WF a ->
+  WF b ->
+  WF (self w) ->
+  wp (set_sub E debug a b)
+    (fun (_ : unit) (w' : world K unit T) =>
+       WF (self w') /\
+       cap (self w') = cap (self w) /\
+       exists made : list K,
+         Forall (cloned_from E a) made /\
+         exists lost : list N,
+           acct E w w' (flat_map (fun k : K => ids_pair E (k, tt)) made) [] lost /\
+           (Tidy (self w) -> lost = [] /\ Tidy (self w')))
+    (fun w' : world K unit T =>
+       exists made : list K,
+         Forall (cloned_from E a) made /\
+         exists lost : list N,
+           acct E w w' (flat_map (fun k : K => ids_pair E (k, tt)) made) [] lost)
+    w.
+Proof. exact (@set_sub_acct). Qed.
+Print Assumptions C02_set_sub_acct.
+
+(* -------------------------------------------------------------------------- *)
 (* non-vacuity                                                                *)
 (* well-formed interpreter states exist (any capacities) *)
 Example C02_example_WFx : WFx (init_world 2 0 1 3).
@@ -371,3 +653,29 @@ Example C02_example_run_case :
       1; 7777; 0; 1; 8888; 8889;  1; 7777; 0; 0; 8888; 8889;
       8890; 1; 0; 0; 100000]]%N.
 Proof. vm_compute. reflexivity. Qed.
+
+(* the hypothesis "() has no identity" of C02_conserves_s_extend,
+   C02_s_from_iter_acct, C02_set_sub_acct holds of the interpreter's Set
+   environment, for every script *)
+Example C02_example_unit_no_id : forall sc : script, idV (env_set sc) tt = [].
+Proof. reflexivity. Qed.
+
+(* entry_ok: an Occupied entry of m3 must point below len = 3; Vacant is free *)
+Example C02_example_entry_ok :
+  entry_ok (@Occupied key 2) m3 /\ entry_ok (Vacant (k_ 9 9)) m3 /\ ~ entry_ok (@Occupied key 3) m3.
+Proof. cbn [entry_ok len m3]. repeat split; try lia. Qed.
+
+(* the preconditions of C02_clone_acct / C02_clone_NoDup for cloning m3 into an
+   empty container of the same capacity, and what the honest Clone callbacks make *)
+Example C02_example_clone :
+  let w0 := w_of (new_map (cap m3)) in
+  WF (self w0) /\ len (self w0) = 0 /\ cap (self w0) = cap m3 /\
+  length (clone_made (env_map (sc_drop 0)) m3 (len m3) 0 (cb w0)) = 3 /\
+  NoDup (flat_map (ids_pair (env_map (sc_drop 0)))
+                  (clone_made (env_map (sc_drop 0)) m3 (len m3) 0 (cb w0)) ++ dropped (log w0)).
+Proof.
+  cbv zeta. split; [apply WF_new|]. split; [reflexivity|]. split; [reflexivity|].
+  split; [vm_compute; reflexivity|]. vm_compute.
+  repeat constructor; cbn [In]; intros H;
+    repeat (destruct H as [H | H]; try discriminate H); exact H.
+Qed.
